@@ -413,6 +413,9 @@ findTypeLoop:
 					subtablePos = chunkPos[chunkSubtable|tCode|sCode]
 				}
 				subtableOffset := subtablePos - base
+				if subtableOffset > 0xFFFF {
+					panic("too much data in lookup table")
+				}
 				buf = append(buf, byte(subtableOffset>>8), byte(subtableOffset))
 			}
 			if li.Meta.LookupFlags&UseMarkFilteringSet != 0 {
